@@ -95,6 +95,17 @@ def gen_cases(rng, tier, ovh, sizes):
                 ops.append(("P", rng.randrange(1, nkeys + 1), n, 0))
             else:
                 ops.append(("G", rng.randrange(1, nkeys + 2)))
+        probe = PROBE16
+        if rng.random() < 0.5:
+            # keys are 64-bit hashes in real use: spread them so that pairs of keys agree modulo
+            # 2^8, 2^12, 2^16, 2^32 or differ only in the top bit (any shortcut keyed by part of
+            # the key then sees two resident keys as one)
+            M = rng.choice([256, 4096, 65536, 1 << 32, 1 << 63])
+            half = max(1, nkeys // 2)
+            km = lambda k: k if k <= half else ((k - half) + M * rng_mul) & ((1 << 64) - 1)
+            rng_mul = rng.choice([1, 1, 3])
+            ops = [(o[0], km(o[1])) + tuple(o[2:]) for o in ops]
+            probe = sorted(set(km(k) for k in range(1, nkeys + 2)))
         ops = number_bitmaps(ops)
         base = sum(sizes[n] + ovh for n in nel[:5])
         cap = rng.choice([0, 1, ovh, sizes[nel[2]] + ovh, base, base * 2, sizes[nel[-1]] + ovh, 3 * (sizes[nel[-1]] + ovh), 1 << 24])
@@ -102,7 +113,7 @@ def gen_cases(rng, tier, ovh, sizes):
         if rng.random() < 0.12:
             cap = rng.choice([(1 << 63) - 1, 1 << 63, (1 << 64) - 1, (1 << 32), (1 << 31) - 1])   # "unbounded" capacities
         cid += 1
-        cases.append(Case("r%d" % cid, cap, ops, PROBE16, "random"))
+        cases.append(Case("r%d" % cid, cap, ops, probe, "random"))
     return cases, n_exh
 
 
@@ -264,6 +275,54 @@ def number_ops_keep(ops):
     return [tuple(o) for o in ops]
 
 
+def overlap_level(rep, scratch, ovh, sizes):
+    """Two cache calls that overlap in time (the second is started while the first is inside
+    the cache: its call counter blocks).  Whatever the cache does, the outcome must be that of
+    ONE of the two sequential orders of the two calls (LRU.lru_observe on both orders): results,
+    later evictions, counters."""
+    n = 10
+    cap3 = 3 * (sizes[n] + ovh)
+    scen = [
+        ("get-get", [("P", 3, n, 1), ("P", 1, n, 2), ("P", 2, n, 3)], ("G", 1), ("G", 3), [("P", 4, n, 9)]),
+        ("get-get-b", [("P", 3, n, 1), ("P", 1, n, 2), ("P", 2, n, 3)], ("G", 3), ("G", 1), [("P", 4, n, 9)]),
+        ("put-get", [("P", 3, n, 1), ("P", 1, n, 2), ("P", 2, n, 3)], ("P", 1, n, 7), ("G", 3), [("P", 4, n, 9)]),
+        ("get-put", [("P", 3, n, 1), ("P", 1, n, 2), ("P", 2, n, 3)], ("G", 3), ("P", 4, n, 8), [("P", 5, n, 9)]),
+        ("put-put", [("P", 3, n, 1), ("P", 1, n, 2), ("P", 2, n, 3)], ("P", 3, n, 7), ("P", 4, n, 8), [("G", 1)]),
+        ("miss-get", [("P", 3, n, 1), ("P", 1, n, 2), ("P", 2, n, 3)], ("G", 99), ("G", 3), [("P", 4, n, 9), ("P", 5, n, 10)]),
+    ]
+    probe = [1, 2, 3, 4, 5, 99]
+
+    def iop(o):
+        return "P %d %d %d" % (o[1], o[2], o[3]) if o[0] == "P" else "G %d" % o[1]
+
+    def mop(o):
+        return "P %d %d %d" % (o[1], sizes[o[2]], o[3]) if o[0] == "P" else "G %d" % o[1]
+    il, ml = [], []
+    for name, pre, a, b, post in scen:
+        il += ["CASE ov-%s CAP %d" % (name, cap3)] + [iop(o) for o in pre] + ["OV %s | %s" % (iop(a), iop(b))] + [iop(o) for o in post] + ["G %d" % k for k in probe]
+        for tag, first, second in (("ab", a, b), ("ba", b, a)):
+            ml += ["CASE ov-%s.%s CAP %d OVH %d" % (name, tag, cap3, ovh)] + [mop(o) for o in pre] + [mop(first), mop(second)] + [mop(o) for o in post] + ["G %d" % k for k in probe]
+    ipath, mpath = scratch.path("c07-ov-impl.txt"), scratch.path("c07-ov-model.txt")
+    open(ipath, "w").write("\n".join(il) + "\n")
+    open(mpath, "w").write("\n".join(ml) + "\n")
+    lines, rc, err = core.run_impl(scratch, "c07", ipath, timeout=120)
+    impl = core.split_cases(lines)
+    model = core.split_cases(core.run_model("c07", mpath))
+    nbad = 0
+    for name, pre, a, b, post in scen:
+        got = strip_sizes(impl.get("ov-" + name) or [])
+        ab = model.get("ov-%s.ab" % name)
+        ba = list(model.get("ov-%s.ba" % name))
+        k = len(pre)
+        ba[k], ba[k + 1] = ba[k + 1], ba[k]          # printed as (result of A, result of B)
+        if rc != 0 or (got != ab and got != ba):
+            nbad += 1
+            rep.violation("monitor:linearizable", "overlapping calls %s ‖ %s after %s, then %s: the outcome %s is that of neither sequential order (A then B: %s ; B then A: %s)%s" % (
+                iop(a), iop(b), " ".join(iop(o) for o in pre), " ".join(iop(o) for o in post), got[k:], ab[k:], ba[k:], "" if rc == 0 else " — harness exit %s: %s" % (rc, err[-300:])),
+                {"impl_lines": il, "scenario": name, "impl": got, "model_ab": ab, "model_ba": ba})
+    return len(scen), nbad
+
+
 def run(rep, scratch, tier, seed, replay=None):
     rng = random.Random(seed)
     nelems = [0, 1, 10, 100, 1000, 5000, 20000, 40000, 70000]
@@ -311,6 +370,8 @@ def run(rep, scratch, tier, seed, replay=None):
                       {"case": sc.to_json(), "overhead_calibrated": ovh, "impl_output": il, "model_output": ml,
                        "broken": "correspondence LRUCache ~ LRU.lru_observe (theorems of Props/C07.v no longer shown to describe this code)"},
                       no_input=True)
+    nov, nov_bad = overlap_level(rep, scratch, ovh, sizes) if not replay else (0, 0)
+    rep.coverage["overlapping_call_scenarios"] = {"scenarios": nov, "failures": nov_bad}
     sample = cases[min(len(cases) - 1, n_exh + 5)] if cases else None
     rep.coverage.update({
         "evaluations": len(cases), "operations_run": nops,
